@@ -17,7 +17,10 @@ TECHNIQUE = ('path-sensitive dataflow (guard dominance with branch-fact refutati
              'templates that emit them and the C declarations; table comparison of richcmp_constants with the interpreter\'s dis.cmp_op and the Py_LT..Py_GE values of the CPython headers; '
              'field completeness of the syntactic-sameness predicate against the construction sites in the parser + propositional entailment of sameness from the path facts in the condition extractors; '
              'interval abstract interpretation (sign / compactness / finiteness / magnitude / overflow) of the Tempita int<->float compare helpers with the operator-set placeholders '
-             'evaluated over all six operators (rules/sC19.py)')
+             'evaluated over all six operators (rules/sC19.py); '
+             'fourth round (rules/s4C19.py): a path-exploring partial evaluator for single compiler methods (quantified attributes bound to every value of their finite domain, the rest symbolic; '
+             'constructor calls, calls and returns recorded) compared with the decision table Python\'s comparison semantics dictates; an interpreter for the small C helpers run over the complete '
+             'partition of the results their C-API calls can deliver / of the operand classes their tests distinguish, Tempita templates expanded by the checker\'s own expander')
 DECIDES = ('(SWITCH) every path from a dispatch method of SwitchTransform to a SwitchStatNode (directly in visit_IfStatNode, through build_simple_switch_statement for the expression '
            'visitors) passed a failing has_duplicate_values test over exactly the case values used, and every case-value list is the non-None result of extract_common_conditions; '
            'extract_common_conditions reports a match only after a test that refutes "switch variable not int/enum" and "some case value not int/enum"; has_duplicate_values answers True '
@@ -35,10 +38,40 @@ DECIDES = ('(SWITCH) every path from a dispatch method of SwitchTransform to a S
            'match only on paths whose branch facts entail `W is None or is_common_value(V, W)` for every other switch-variable candidate W in scope; '
            '(CMPIV) in __Pyx_PyObject_CompareFloatInt/IntFloat every `return_true if op in ...` answer given without comparing values is, for all six operators, the answer for EVERY pair of '
            'operands satisfying the path conditions (PyLong_SHIFT 15 and 30, 64-bit long), value-comparing sites keep op1 left, cast integers to double only within +-2**53, and the constant 0.0 '
-           'stands in for the integer only where the float is inf/nan.')
-NOT_DECIDED = ('outcomes of comparisons in general; find_common_type / coercion lattice for mixed C/Python operands; the Tempita-generated helper bodies other than the int<->float ones (CompareIntInt digit loop, bytes/bytearray content comparison, UnicodeEquals_uchar, PyLongCompare) '
-               '- sites of those helpers that depend on an unmodelled condition are listed as info lines; two pending findings keep C19-CMPLEN (bytes ordering of two empty operands) and the '
-               '32-bit-long model of C19-CMPIV out of run(); '
+           'stands in for the integer only where the float is inf/nan; '
+           '(POLAR) extract_conditions reports ==/in with not_in=False and !=/not in with not_in=True and nothing else, a negated match only when allow_not_in is set, none for a comparison whose '
+           'cascade was not tested None; extract_common_conditions forwards the flag and returns the extractor\'s triple; a visitor that discards the polarity passes allow_not_in=False, the others '
+           'hand polarity / variable / values to the builder; the builder stores the "true" value in the cases and the "false" value in the default and exchanges exactly these two for a negated '
+           'match; CondExprNode hands (true_val, false_val), boolean visitors BoolNode(True)/BoolNode(False); every child of the replaced node reaches the switch (if-clause body paired with its own '
+           'condition, else clause kept); '
+           '(CASE) SwitchCaseNode emits a `case` label per element of its condition list and `break;` after the body; SwitchStatNode evaluates the switch variable before `switch (..) {`, emits the '
+           'cases inside the braces and the else body directly behind a `default:` label; '
+           '(CONN) `x in <display>` becomes == joined by or, `not in` != joined by and (or the negation of the other form), only when node.cascade is None; the empty display / empty container is '
+           'answered False for in and True for not in (FlattenInListTransform, calculate_cascaded_constant_result); the C-array search loop tests ==, stores True + breaks on a hit, False when '
+           'exhausted, and is negated exactly for not in; chains split by ConstantFolding are joined by and; the `!` prefix of the complex equality helper, the Eq/Ne token of the numeric helper and '
+           'op / c_op / helper name of the PyObjectCompare instantiation follow the operator; '
+           '(HAND) the right operand handed to the next link of a chain is flagged needs_evaluation exactly when no evaluation code was emitted for it, and the link evaluates, disposes and frees a '
+           'handed-over operand under the same flag; '
+           '(NONE) a containment helper whose C body applies type-specific C-API to the container is bound only behind as_none_safe_node() (or for a freshly converted C value); '
+           '(TF) every (item, container, eq) helper bound by find_special_bool_compare_function returns a negative value when a C-API call failed and otherwise (found == (eq == Py_EQ)), for every '
+           'configuration of the SAFE macros, every string kind x character class, identical operands; __Pyx__PyUnicode_EqualsUCS4 and both variants of __Pyx_PyObject_Equals_uchar over every '
+           'length / kind / character class / None / identity / declared-str case; the per-character macro passes the non-literal operand first and the Python side sets REVERSE / IS_STR from the '
+           'operand that is not the literal; the object-result wrapper maps the helper\'s error to NULL and the emitted error test matches the result type; '
+           '(MAIN) the dispatching function of the PyObjectCompare template for all 36 type pairs x 6 operators (+ the object-returning variant): constant answers only where every such operand pair '
+           'compares that way (None / identity shortcuts, never for floats or foreign objects), helper calls with (op1, op2) in order and operand classes the helper reads, float/float compared as '
+           '`op1 c_op op2`, generic fallback with (op1, op2, Py_<op>); the str/str helper against the result contracts of PyUnicode_Compare / PyUnicode_Equal; '
+           '(PAIR) the bytes/bytearray helpers (all four type pairs, six operators) on a representative of every class of operand pairs (length relation x first-byte relation x signedness class x '
+           'common-prefix relation x hash state x failing C-API call) and the int/int helper for single-digit values: answer = Python order, bytes compared as unsigned, memcmp inside both operands, '
+           'hash shortcut only with both hashes computed; '
+           '(LONGCMP) __Pyx_PyLong_{Eq,Ne}{ObjC,CObj} for every class of the object operand relative to the constant, PyLong_SHIFT 15/30 x 32/64-bit long; '
+           '(INTTYPE) find_common_int_type returns only types established as C integer types on that path.')
+NOT_DECIDED = ('outcomes of comparisons in general; find_common_type / the coercion of the links of a chain to the common type (coerce_operands_to and its recursion into the cascade depend on the '
+               'operand types of the program: hold-out mutant ho-coerce-cascade-recursion-dropped is missed); the multi-digit part of CompareIntInt (digit loop / pylong_join: listed as info lines); '
+               'which constant links ConstantFolding.visit_PrimaryCmpNode treats as short-circuiting and which partial cascades it keeps (depends on the constant_result values of the links; deciding it '
+               'needs an abstract interpretation of the list-of-lists cascade splitter: mutants constfold-cascade-false-link, ho-constfold-short-cascade-dropped are missed); which set displays '
+               'FlattenInListTransform must leave alone because a member is unhashable (CPython raises TypeError; depends on the member types: ho-flatten-unhashable-guard-dropped is missed); the body of '
+               '__Pyx_PySet_ContainsUnhashable (treated as an API with a three-valued result: the pending-exception state around PyErr_Clear is not modelled, ho-set-unhashable-errclear is missed); '
+               'one pending finding keeps C19-DUPKEY out of run() (FINDING_C19_1: case values of `c in b"ab"` are keyed by a bytes slice) and one the 32-bit-long model of C19-CMPIV; '
                'evaluation ORDER of the temporaries introduced by FlattenInListTransform (finding 22, claimed by C20/LET-ORDER); that extract_conditions only collects literal/const operands; '
                'I3 is vacuous here (no PythonCapiCallNode site names a compare helper) and is replaced by CMPH.')
 ASSUMPTIONS = ['a C switch is only correct for integer/enum operands without duplicate labels (C standard 6.8.4.2)',
@@ -92,6 +125,21 @@ MUTATIONS = [
     ('Cython/Compiler/Optimize.py', 'visit_CondExprNode: guard split into two ifs with a local `too_few`', 'silent'),
     ('Cython/Compiler/Optimize.py', 'extract_common_conditions: type test rewritten as two ifs, second one `not all(c.type.is_int or c.type.is_enum for c in conditions)`', 'silent'),
     ('Cython/Compiler/ExprNodes.py', 'PrimaryCmpNode.generate_evaluation_code: extra local aliases; richcmp_constants rows reordered; c_operator branches reordered', 'silent'),
+    # fourth round (rules/s4C19.py): 63 breaking (11 of them a hold-out set written after the rules were final: 7 reported) + 13 behaviour-preserving edits are kept as patches under /verif/mutants/C19/<name>/ (meta.json: what, breaking, caught_by);
+    # the thorough tier replays the ones recorded as caught.  One line per rule here:
+    ('Cython/Compiler/Optimize.py', 'extract_conditions: == reported with not_in=True / the `not_in and not allow_not_in` gate dropped / the cascade test dropped', 'C19-POLAR'),
+    ('Cython/Compiler/Nodes.py', 'SwitchCaseNode: `break;` dropped / label for conditions[:1] only; SwitchStatNode: `default:` dropped', 'C19-CASE'),
+    ('Cython/Compiler/Optimize.py', 'FlattenInListTransform: in -> and; empty display answered from the wrong operator; IterationTransform: NotNode for `in`, break dropped, != test', 'C19-CONN'),
+    ('Cython/Compiler/ExprNodes.py', 'PrimaryCmpNode hands self.operand2 with needs_evaluation=True; CascadedCmpNode: needs_evaluation=(coerced_operand2 is None)', 'C19-HAND'),
+    ('Cython/Compiler/ExprNodes.py', 'find_special_bool_compare_function: as_none_safe_node() dropped in the str branch', 'C19-NONE'),
+    ('Cython/Utility/ObjectHandling.c', '__Pyx_PySequence_ContainsTF without the `result < 0` pass-through; __Pyx_PyBoolOrNull_FromLong with b <= 0', 'C19-TF'),
+    ('Cython/Utility/StringTools.c', '__Pyx_UnicodeContainsUCS4: `character > 0xFF && str_kind == 2` shortcut; EqualsUCS4 `length < 1`; Equals_uchar None -> Py_EQ; REVERSE macro arguments', 'C19-TF'),
+    ('Cython/Utility/Optimize.c', 'PyObjectCompare main: None answers exchanged / identity shortcut EqLeGt / CompareFloatInt(op2, op1) / RichCompare(op2, op1)', 'C19-MAIN'),
+    ('Cython/Utility/Optimize.c', 'bytes helpers: first-byte answers exchanged / length2 - length1 / (const char*) first byte / hash2 != -1 dropped; IntInt: sign flip dropped', 'C19-PAIR'),
+    ('Cython/Utility/Optimize.c', 'PyLongCompare: IsNonNeg -> IsNeg under intval < 0', 'C19-LONGCMP'),
+    ('Cython/Compiler/ExprNodes.py', 'find_common_int_type returns type2 where type1 was tested .is_int', 'C19-INTTYPE'),
+    ('Cython/Compiler/*.py, Cython/Utility/*.c', '13 behaviour-preserving rewrites (mutants/C19/np-*): De Morgan, early returns, helper closures, renamed locals, f-string <-> %, reordered keywords, '
+     'complemented operator sets, enumerate(list(..)) loops, C helpers as single return expressions', 'silent (np-flatten-refactor made C19-MEMEQ give up before pC19.local_env2)'),
 ]
 
 
@@ -426,7 +474,7 @@ def flattening_sites(ix, modules=('Optimize', 'ParseTreeTransforms')):
                                        for c in n.comparators) for n in walk_no_nested(fn))
             if not tests_membership:
                 continue
-            env = iface.local_env(fn)
+            env = P.local_env2(fn)
             cons = []
             for n in walk_no_nested(fn):
                 if P.constructs(n, 'PrimaryCmpNode'):
@@ -452,7 +500,7 @@ def rule_MEMEQ(ctx):
         o1, o2 = P.kwarg(call, 'operand1'), P.kwarg(call, 'operand2')
         for n in walk_no_nested(fn):
             if P.constructs(n, 'PrimaryCmpNode') and n is not call:
-                ops = iface.const_strs(P.kwarg(n, 'operator'), iface.local_env(fn)) if P.kwarg(n, 'operator') is not None else None
+                ops = iface.const_strs(P.kwarg(n, 'operator'), P.local_env2(fn)) if P.kwarg(n, 'operator') is not None else None
                 if ops and set(ops) <= {'is', 'is_not'} and o1 is not None and o2 is not None and \
                         node_src(P.kwarg(n, 'operand1')) == node_src(o1) and node_src(P.kwarg(n, 'operand2')) == node_src(o2):
                     return True
@@ -487,7 +535,7 @@ def run(ctx):
                 emitted.add(name)
     if not emitted:
         raise AnalysisError('the comparison nodes emit no __Pyx_ helper by name any more')
-    from ..rules import switchpol, sC19
+    from ..rules import switchpol, sC19, s4C19
     return [
         switchpol.rule_switch_polarity(ctx),
         rule_SWITCH(ctx),
@@ -500,5 +548,16 @@ def run(ctx):
         sC19.rule_same(ctx),
         sC19.rule_cmpiv(ctx),
         sC19.rule_cmplen(ctx),          # guards the repaired ordering of two empty bytes/bytearray operands (f97d24a71)
+        s4C19.rule_polar(ctx),
+        s4C19.rule_case(ctx),
+        s4C19.rule_conn(ctx),
+        s4C19.rule_hand(ctx),
+        s4C19.rule_none(ctx),
+        s4C19.rule_tf(ctx),
+        s4C19.rule_main(ctx),
+        s4C19.rule_pair(ctx),
+        s4C19.rule_longcmp(ctx),
+        s4C19.rule_inttype(ctx),
+        # s4C19.rule_dupkey(ctx),       # pending finding (FINDING_C19_1: CharNode case values of `c in b"ab"` are keyed by a bytes slice, `c == 97 or c in b"ab"` -> duplicate case labels)
         # sC19.rule_cmpiv_llp64(ctx),   # pending finding (FINDING_2: 32-bit long fallback of CompareFloatInt)
     ]
